@@ -14,6 +14,7 @@ package gocql
 import (
 	"fmt"
 	"reflect"
+	"sync"
 	"testing"
 	"time"
 
@@ -31,6 +32,7 @@ type vxCASCase struct {
 	Mut     vxMut             `json:"mut"`
 	Applied string            `json:"applied"` // first column: ok | absent | text | null | second
 	Flags   []bool            `json:"flags"`   // the [applied] cell of each row
+	Forever bool              `json:"forever,omitempty"` // batch helpers answered with UNPREPARED: the node says so every time (the batch sent nothing prepared, so nothing can be prepared again)
 }
 
 // vxCASShape puts the [applied] column the case describes in front of the generated columns.
@@ -109,12 +111,26 @@ type vxCASOut struct {
 func vxCASRun(c *vxCASCase, r *cqlspec.Response, k *vstats.Case) (*vxCASOut, error) {
 	cl := vnode.NewCluster(vxSpecs(1, 1))
 	node := cl.Nodes()[0]
+	var unprepMu sync.Mutex
+	unprepared := 0
 	node.Handler = func(rc *vnode.ReqCtx) {
 		switch rc.Req.Kind {
 		case "PREPARE":
 			rc.Reply(&cqlspec.Response{Kind: "PREPARED", PreparedIDHex: "0a0b", Meta: &cqlspec.Metadata{Columns: []cqlspec.Column{}}, ResultMeta: &cqlspec.Metadata{Columns: []cqlspec.Column{}}})
 		case "EXECUTE", "QUERY", "BATCH":
 			out := *r
+			if out.Kind == "ERROR" && out.Code == cqlspec.ErrUnprepared {
+				// UNPREPARED makes the driver prepare and execute again (C14's subject): a node that says so
+				// for ever keeps the driver busy for ever by design; say it once, then answer normally
+				unprepMu.Lock()
+				n := unprepared
+				unprepared++
+				unprepMu.Unlock()
+				if n > 0 && !(c.Forever && c.Helper >= 2) {
+					rc.Reply(vxVoid())
+					return
+				}
+			}
 			out.Version = rc.Req.Header.Version
 			out.Stream = rc.Req.Header.Stream
 			out.Compress = false
@@ -229,6 +245,7 @@ func vxDrawCAS(t *rapid.T, odd bool) *vxCASCase {
 		c.Flags = append(c.Flags, rapid.Bool().Draw(t, "flag"))
 	}
 	if odd {
+		c.Forever = rapid.Bool().Draw(t, "forever")
 		c.Applied = rapid.SampledFrom([]string{"ok", "absent", "absent", "text", "null", "second"}).Draw(t, "applied")
 		if rapid.IntRange(0, 2).Draw(t, "mutate") == 0 {
 			c.Mut = vxDrawMut(t, true)
